@@ -243,7 +243,9 @@ func schemaTreeCase(m *Model, rep *Report, r *Rng, tmp string, g *genSChart, use
 			rep.H("lint:" + map[bool]string{true: "reject", false: "pass"}[lintSchemaFail])
 			if lintSchemaFail != shouldFail {
 				fp := "C14:lint-gate"
-				if hasNullDefault(g) {
+				if hasNullDefault(g) || hasNullValue(user) {
+					// one root cause: lint coalesces twice, so a null (in the defaults or given by the
+					// user to remove a default) is resolved a second time against the chart defaults
 					fp = "C14:lint-null-default"
 				}
 				rep.Issue(Issue{Kind: "monitor", Fingerprint: fp, What: fmt.Sprintf("lint schema error=%v but the schemas %s", lintSchemaFail, map[bool]string{true: "reject", false: "accept"}[shouldFail]), Case: cs, Impl: trunc(joined, 500), Seed: seed, Index: idx})
@@ -252,6 +254,26 @@ func schemaTreeCase(m *Model, rep *Report, r *Rng, tmp string, g *genSChart, use
 		os.RemoveAll(dir)
 	}
 	rep.Traces++
+}
+
+func hasNullValue(v any) bool {
+	switch x := v.(type) {
+	case nil:
+		return true
+	case map[string]any:
+		for _, y := range x {
+			if hasNullValue(y) {
+				return true
+			}
+		}
+	case []any:
+		for _, y := range x {
+			if hasNullValue(y) {
+				return true
+			}
+		}
+	}
+	return false
 }
 
 func hasNullDefault(g *genSChart) bool {
